@@ -112,7 +112,7 @@ CLAIMED = {
             "§7 C15 (and §2, §3)"),
     "C19": ("Text.tla renders every program with 12 layouts and TLC asserts on the model that each rendering reads back to "
             "the same forms (layout insensitivity); Def.tla gives the program's meaning; the real code then runs the program "
-            "through 7 delivery routes, each compared with Def and all compared with each other; REPL sessions of Repl.tla "
+            "through 8 delivery routes (incl. the AST built with the lnotation helpers), each compared with Def and all compared with each other; REPL sessions of Repl.tla "
             "are piped line by line into the real repl.Execute and the printed values compared",
             "Exhaustive over C01-grammar programs up to 2 (quick) / 3 (thorough) nodes + 22 multi-form programs x 12 layouts "
             "x 7 routes (8.5k / 120k route executions).",
